@@ -178,3 +178,18 @@ func cmdline(pid int) string {
 	}
 	return string(bytes.ReplaceAll(b, []byte{0}, []byte{' '}))
 }
+
+// isThreadGroupLeader: /proc/<n>/stat also exists for thread ids; a process has Tgid == Pid.
+func isThreadGroupLeader(pid int) bool {
+	b, err := os.ReadFile("/proc/" + strconv.Itoa(pid) + "/status")
+	if err != nil {
+		return false
+	}
+	for _, line := range strings.Split(string(b), "\n") {
+		if strings.HasPrefix(line, "Tgid:") {
+			v, _ := strconv.Atoi(strings.TrimSpace(line[5:]))
+			return v == pid
+		}
+	}
+	return false
+}
